@@ -3,8 +3,8 @@
    (Fourier part) and C18/ModelW.v (wavelet bookkeeping), tied to /repo by the
    correspondence shards (C18/Corr.v).  Carrier: R; [cx] = R * R. *)
 From Coq Require Import Reals List Bool Arith.
-From Verif Require Import Base.Num Lib.Axis C18.Model C18.ModelW C18.ProofsGrid C18.ProofsDFT C18.ProofsCx
-  C18.ProofsAxis C18.ProofsFT C18.ProofsTrue C18.ProofsHC C18.ProofsTrueHC C18.ProofsSum C18.ProofsW.
+From Verif Require Import Base.Num Base.Vec Lib.Axis C18.Model C18.ModelW C18.ModelH C18.ProofsGrid C18.ProofsDFT C18.ProofsCx
+  C18.ProofsAxis C18.ProofsFT C18.ProofsTrue C18.ProofsHC C18.ProofsTrueHC C18.ProofsSum C18.ProofsW C18.ProofsH.
 Import ListNotations.
 Local Open Scope R_scope.
 
@@ -251,3 +251,36 @@ Theorem ft_equals_defining_sum : forall (a : @axis R) (sh : bool) (sg : R) (x : 
               (a_n a)).
 Proof. exact (ft_is_defining_sum cis_true cis_true_add cis_true_0 cis_true_2 cis_true_prim PI (sqrt (2 * PI))). Qed.
 Print Assumptions ft_equals_defining_sum.
+
+(* ------------------------------------------------------------------ *)
+(* W3: the Haar wavelet with periodic (periodization) extension, as PyWavelets computes it and
+   WaveletTransform flattens it (model C18/ModelH.v, compared with the implementation for
+   lengths 1..12 x levels 0..3 by the correspondence).
+   (a) W.inverse(W(x)) = x for EVERY length (odd lengths at any level included: the repeated
+       sample is cropped) and every level count. *)
+Theorem haar_reconstruction : forall (L : nat) (x : list R),
+  ihaar (sqrt 2) L (length x) (haar (sqrt 2) L x) = x.
+Proof. exact ihaar_haar_sqrt2. Qed.
+Print Assumptions haar_reconstruction.
+
+(* (b) the adjoint identity with ODL's scaling (W.adjoint = inverse / cell_volume, domain inner
+       product = cell_volume * dot, coefficient space unweighted), for every level count,
+       whenever every level length is even (n divisible by 2^L): <W x, c> = <x, W.adjoint c>. *)
+Theorem haar_adjoint_identity_partial : forall (L : nat) (x c : list R) (cv : R), cv <> 0 ->
+  length c = length x -> even_chain L (length x) ->
+  dot (haar (sqrt 2) L x) c = cv * dot x (vscal (1 / cv) (ihaar (sqrt 2) L (length x) c)).
+Proof. exact haar_adjoint_sqrt2. Qed.
+Print Assumptions haar_adjoint_identity_partial.
+
+Theorem haar_is_orthogonal_on_even_levels : forall (L : nat) (x y : list R), length x = length y ->
+  even_chain L (length x) -> dot (haar (sqrt 2) L x) (haar (sqrt 2) L y) = dot x y.
+Proof. exact haar_parseval_sqrt2. Qed.
+
+(* (c) the FULL statement (every size) is false of the faithful model: with an odd length the
+       returned operator is not the adjoint (finding wavelet-adjoint-periodization-odd-length). *)
+Theorem haar_adjoint_identity_odd_refuted :
+  exists (x c : list R),
+    dot (haar (sqrt 2) 1 x) c <> 1 * dot x (vscal (1 / 1) (ihaar (sqrt 2) 1 (length x) c)).
+Proof. exact haar_adjoint_odd_refuted_sqrt2. Qed.
+Example even_chain_example : even_chain 3 24.
+Proof. cbn. repeat split. Qed.
